@@ -554,3 +554,34 @@ Proof.
   induction 1 as [|l ls [W [F2 F1]] _ IH]; intros s; [exact I|]. simpl. split; [exact W|]. split; [|split; [exact F2|apply IH]].
   unfold f1_free. destruct (s_retry s); try exact I. destruct l; try exact I. exact F1.
 Qed.
+
+(* executable form of the hypotheses (used by the examples and by the correspondence oracle's soundness) *)
+Definition wf_labelb (l : label) : bool :=
+  match l with
+  | LInvoke _ op => match op_value op with Some v => negb (is_tomb v) | None => true end
+  | LThread _ e | LRetry e => negb (env_ocas e)
+  | _ => true
+  end.
+Definition f1_freeb (s : state) (l : label) : bool :=
+  match s_retry s, l with RCommit _ _ _, LRetry e => env_effective e | _, _ => true end.
+Definition f2_freeb (l : label) : bool :=
+  match l with LInvoke _ op => match op_value op with Some v => negb (is_empty v) | None => true end | _ => true end.
+Fixpoint labels_okb (s : state) (ls : list label) : bool :=
+  match ls with
+  | [] => true
+  | l :: ls' => wf_labelb l && f1_freeb s l && f2_freeb l && labels_okb (step s l) ls'
+  end.
+
+Lemma wf_labelb_spec l : wf_labelb l = true -> wf_label l.
+Proof.
+  destruct l; simpl; auto; try (intros H; apply negb_true_iff in H; exact H).
+  unfold op_wf. destruct (op_value op); auto. intros H. apply negb_true_iff in H. exact H.
+Qed.
+
+Lemma labels_okb_spec ls : forall s, labels_okb s ls = true -> labels_ok s ls.
+Proof.
+  induction ls as [|l ls IH]; intros s H; [exact I|]. simpl in H. rewrite !andb_true_iff in H. destruct H as [[[H1 H2] H3] H4].
+  simpl. split; [apply wf_labelb_spec; exact H1|]. split; [|split; [|apply IH; exact H4]].
+  - unfold f1_free, f1_freeb in *. destruct (s_retry s); auto. destruct l; auto.
+  - unfold f2_free, f2_freeb in *. destruct l; auto. destruct (op_value op); auto. apply negb_true_iff in H3. exact H3.
+Qed.
